@@ -23,7 +23,7 @@ RULE = ("scenario = (worker class, HUP timing vector incl. two HUPs 50 ms apart,
 def listener_inodes(srv):
     out = set()
     try:
-        if srv.bind_kind == "tcp":
+        if srv.bind_kind in ("tcp", "both"):
             want = "%04X" % srv.port
             for fn in ("/proc/net/tcp",):
                 with open(fn) as f:
@@ -84,7 +84,12 @@ def run_scenario(run, e4, sc):
     settings = {"graceful_timeout": 10, "timeout": sc.get("timeout", 30), "raw_env": ["GEN=%d" % gens[0][1]]}
     if wc == "gthread":
         settings["threads"] = 4
-    srv = e4.Server("c10", worker_class=wc, workers=gens[0][0], settings=settings, bind=sc["bind"])
+    conf_extra = ""
+    if sc.get("slow_boot"):
+        # widen the window between fork() and the worker installing its own signal handlers
+        conf_extra = ("def post_fork(server, worker):\n    _ev('post_fork', age=worker.age, wpid=worker.pid)\n"
+                      "    import time as _t\n    _t.sleep(%s)\n" % sc["slow_boot"])
+    srv = e4.Server("c10", worker_class=wc, workers=gens[0][0], settings=settings, bind=sc["bind"], conf_extra=conf_extra)
     lag = e4.LagProbe()
     lag.start()
     stop = threading.Event()
@@ -182,6 +187,15 @@ def run_scenario(run, e4, sc):
                 sorted(mino0), sorted(mino1))))
         else:
             run.count("listener_inode_unchanged_checks")
+        if srv.bind_kind in ("unix", "both") and e4.alive(srv.master_pid):
+            if not os.path.exists(srv.sockpath):
+                v.append(("unix-socket-file-removed-during-reload", "the socket file vanished while the master and its new workers still listen on it"))
+            else:
+                r = e4.request(srv.sockpath, "/pid", timeout=5)
+                if r["outcome"] != "ok":
+                    v.append(("unix-listener-not-serving-after-reload", r["outcome"]))
+                else:
+                    run.count("unix_socket_after_reload_checks")
         # ---- pool -------------------------------------------------------------------------------
         if not e4.alive(srv.master_pid):
             v.append(("master-died-during-reload", srv.stderr()[-300:]))
@@ -249,6 +263,16 @@ def scenarios(tier, seed):
                 delays = [rng.choice([0.6, 1.0]), rng.choice([0.7, 1.5])]
             out.append({"class": wc, "configs": configs, "hup_delays": delays, "clients": 8, "bind": rng.choice(["tcp", "unix"]),
                         "kind": kind})
+        # both kinds of listener at once (the reload compares the bind lists); every class with a unix socket at least once
+        out.append({"class": classes[(seed + rep + 1) % 4], "configs": [(2, 1), (2, 2)], "hup_delays": [0.6], "clients": 6, "bind": "both",
+                    "kind": "two-listeners"})
+        for wc in ("gthread", classes[(seed + rep) % 4]):
+            out.append({"class": wc, "configs": [(2, 1), (rng.randint(1, 3), 2)], "hup_delays": [0.5], "clients": 6, "bind": "unix",
+                        "kind": "unix-bind"})
+        # a second HUP while the first one's workers are still booting (slow post_fork): the surplus workers must still go
+        for wc in (classes[(seed + rep + 2) % 4], "gevent"):
+            out.append({"class": wc, "configs": [(2, 1), (2, 2), (2, 3)], "hup_delays": [0.5, 0.2], "clients": 4, "bind": "tcp",
+                        "kind": "double-slowboot", "slow_boot": 0.5})
         # TTIN / TTOU before a reload whose configuration keeps the same worker count
         for wc in ([classes[(seed + rep) % 4], classes[(seed + rep + 2) % 4]] if tier == "quick" else classes):
             w0 = rng.randint(1, 2)
@@ -299,7 +323,7 @@ def main(tier, seed):
     run = Run(PROP, tier, seed, "exploration", RULE)
     run.require("scenarios", "requests", "requests_overlapping_hup", "listener_inode_unchanged_checks", "all_workers_new_checks",
                 "new_generation_served_checks", "class/sync", "class/gthread", "class/gevent", "class/eventlet", "kind/double-fast",
-                "kind/ttin-then-hup", "long_request_across_reload_checks")
+                "kind/ttin-then-hup", "long_request_across_reload_checks", "kind/two-listeners", "kind/unix-bind", "kind/double-slowboot")
     shards = [{"scenario": sc, "seed": seed, "tier": tier} for sc in scenarios(tier, seed)]
     run.assumptions = [
         "for non-sync workers a connection closed with zero response bytes is the accepted-but-not-yet-read case the statement does not cover: "
